@@ -44,6 +44,8 @@ Lemma Cs_nil p t : Cs [] p p [] t t.
 Proof. exists []. split; [apply Ts_nil|reflexivity]. Qed.
 Lemma Cs_cons e es p p1 p2 c1 c2 t t1 t2 : C e p p1 c1 t t1 -> Cs es p1 p2 c2 t1 t2 -> Cs (e :: es) p p2 (c1 ++ c2) t t2.
 Proof. intros (e1 & H1 & E1) (e2 & H2 & E2). exists (e1 ++ e2). split; [eapply Ts_cons; eassumption|rewrite calls_app; congruence]. Qed.
+Lemma Cs_app l1 l2 p p1 p2 c1 c2 t t1 t2 : Cs l1 p p1 c1 t t1 -> Cs l2 p1 p2 c2 t1 t2 -> Cs (l1 ++ l2) p p2 (c1 ++ c2) t t2.
+Proof. intros (e1 & H1 & E1) (e2 & H2 & E2). exists (e1 ++ e2). split; [eapply Ts_app; eassumption|rewrite calls_app; congruence]. Qed.
 Lemma C_seq es p p' cs t t' : Cs es p p' cs t t' -> C (ESeq es) p p' cs t t'.
 Proof. intros (evs & H & E). exists evs. split; [apply T_seq; exact H|exact E]. Qed.
 Lemma Ca_head e es p p' cs t t' : C e p p' cs t t' -> Ca (e :: es) p p' cs t t'.
@@ -84,6 +86,9 @@ Proof. intros H K. destruct (C_ok _ _ _ _ _ _ H) as [f O]. eapply ok_ko_excl; ea
 
 (** rewriting the end position / the calls of a [C] fact *)
 Lemma C_eq e p p1 p2 c1 c2 t t1 t2 : C e p p1 c1 t t1 -> p1 = p2 -> c1 = c2 -> t1 = t2 -> C e p p2 c2 t t2.
+Proof. intros H -> -> ->. exact H. Qed.
+
+Lemma Cs_eq_x es p p1 p2 c1 c2 t t1 t2 : Cs es p p1 c1 t t1 -> p1 = p2 -> c1 = c2 -> t1 = t2 -> Cs es p p2 c2 t t2.
 Proof. intros H -> -> ->. exact H. Qed.
 
 (** ko through a name *)
@@ -170,7 +175,8 @@ with korun_step :=
   end
 with crun :=
   at_sat;
-  first [ eassumption | match goal with H : forall _ : nat * nat, _ |- _ => solve [eapply H] end | crun_step ]
+  first [ eassumption | match goal with H : forall _ : nat * nat, _ |- _ => solve [eapply H] end
+        | match goal with H : forall (_ : nat) (_ : nat * nat), _ |- _ => solve [eapply H] end | crun_step ]
 with crun_step :=
   lazymatch goal with
   | |- C _ _ (EChar _) _ _ _ _ _ => eapply C_char; eapply At_head; eassumption
@@ -203,3 +209,5 @@ Tactic Notation "atn" hyp(H) "as" ident(N) := pose proof (At_app _ _ _ _ H) as N
 Ltac zr := unfold rune in *.
 Ltac zlia := unfold rune in *; lia.
 Ltac lenlia := unfold rune in *; repeat rewrite app_length in *; cbn [length] in *; repeat rewrite app_length in *; cbn [length] in *; lia.
+(** right-nest the appends of an [At] fact *)
+Ltac norm_app H := repeat (first [rewrite <- app_assoc in H | rewrite <- app_comm_cons in H]); cbn [app] in H.
